@@ -450,6 +450,91 @@ class LongHistory(Part):
         return res
 
 
+class SecondAnonymizer(Part):
+    name = "after_an_anonymizer_with_other_networks"
+    desc = "every ordered pair of preserved-network configurations used one after the other in one process on the same text (line API, FileAnonymizer, main): the second one's preserved addresses and masks are verbatim, nothing maps into its networks"
+
+    MENU = [None, ["10.0.0.0/8", "172.16.0.0/12", "192.168.0.0/16"], ["11.11.0.0/16", "200.7.6.5/32"], ["10.20.0.0/16"],
+            ["0.0.0.0/1"]]
+
+    def __init__(self, tier, seed):
+        self.tier, self.seed = tier, seed
+
+    def cases(self):
+        return [{"first": i, "entry": e, "salts": s} for i in range(len(self.MENU))
+                for e in ("line", "FileAnonymizer", "main") for s in ("same", "other")]
+
+    def _run(self, nets, entry, salt, text, root, tag):
+        import io
+
+        from netconan.anonymize_files import FileAnonymizer
+
+        with seams.capture_logs(), seams.capture_stdio():
+            if entry == "line":
+                m = ipdom.mod()
+                an = m.IpAnonymizer(salt, None, None if nets is None else list(nets), preserve_suffix=0)
+                return "".join(m.anonymize_ip_addr(an, ln, False) for ln in text.splitlines(True))
+            if entry == "FileAnonymizer":
+                out = io.StringIO()
+                FileAnonymizer(anon_pwd=False, anon_ip=True, salt=salt, preserve_networks=None if nets is None else list(nets),
+                               preserve_suffix_v4=0, preserve_suffix_v6=0).anonymize_io(io.StringIO(text), out)
+                return out.getvalue()
+            from netconan.netconan import main
+
+            ind, outd = os.path.join(root, "i" + tag), os.path.join(root, "o" + tag)
+            seams.write_tree(ind, {"a.cfg": text})
+            argv = ["-a", "-s", salt, "--preserve-host-bits", "0", "-i", ind, "-o", outd]
+            if nets:
+                argv += ["--preserve-addresses", ",".join(nets)]
+            main(argv)
+            return (seams.read_tree(outd).get("a.cfg") or b"").decode()
+
+    def run(self, case):
+        res = Res()
+        root = seams.scratch_dir("c05s")
+        try:
+            allnets = [ipaddress.ip_network(n) for nl in self.MENU if nl for n in nl]
+            addrs = []
+            for n in allnets:
+                lo, hi = int(n.network_address), int(n.broadcast_address)
+                addrs += [lo, hi, lo + (hi - lo) // 3, lo - 1, hi + 1]
+            addrs += ipdom.v4_window(self.seed, 2)[::11] + sorted(refs.MASKS32)[::7]
+            addrs = sorted(set(a for a in addrs if 0 <= a < 2 ** 32))
+            text = "".join("h %s e\n" % refs.v4_text(a) for a in addrs)
+            seconds = [case["second"]] if "second" in case else range(len(self.MENU))
+            for j in seconds:
+                seams.restore_globals()
+                first, second = self.MENU[case["first"]], self.MENU[j]
+                self._run(first, case["entry"], "saltForTest", text, root, "a%d" % j)
+                got = self._run(second, case["entry"], "saltForTest" if case["salts"] == "same" else "otherSalt", text, root, "b%d" % j)
+                seams.restore_globals()
+                res.states += 1
+                res.transitions += 2
+                nets = [ipaddress.ip_network(n) for n in (second or [])]
+                toks = [ln.split()[1] for ln in got.splitlines()]
+                res.nt((case["first"], j, case["entry"], case["salts"]))
+                res.out(tuple(toks[:10]))
+                for a, tok in zip(addrs, toks):
+                    res.evals += 1
+                    t = refs.v4_text(a)
+                    keep = refs.is_mask32(a) or refs.in_any(a, nets)
+                    bad = None
+                    if keep and tok != t:
+                        bad = "preserved-value-rewritten-after-another-anonymizer"
+                    elif not keep and refs.in_any(int(ipaddress.IPv4Address(tok)), nets):
+                        bad = "outside-address-mapped-into-preserved-network-after-another-anonymizer"
+                    if bad:
+                        res.violation("%s|%s" % (bad, case["entry"]),
+                                      "after an anonymizer preserving %r, one preserving %r (%s salt): %s -> %s" % (
+                                          first, second, case["salts"], t, tok), dict(case, second=j))
+                        break
+            if "second" not in case:
+                res.samples.append({"first": self.MENU[case["first"]], "entry": case["entry"], "addresses": len(addrs)})
+        finally:
+            shutil.rmtree(root, ignore_errors=True)
+        return res
+
+
 def parts(tier, seed):
     return [MaskPart(tier, seed), NetworkPart(tier, seed), LazyPart(tier, seed), PrivatePart(tier, seed),
-            LongHistory(tier, seed)]
+            LongHistory(tier, seed), SecondAnonymizer(tier, seed)]
